@@ -437,29 +437,43 @@ func (ex *Exec) evalModTarget(ctx *SpecCtx, c *Clause) []*modTarget {
 	}
 	switch x := e.(type) {
 	case *ast.SelectorExpr:
-		base := ctx.eval(x.X)
-		bt := ex.env.resolve(base.T)
-		if _, isIface := bt.Underlying().(*types.Interface); isIface {
-			if gf := ex.ghostField(bt, x.Sel.Name); gf != nil {
-				gt := ctx.resolveGhostType(gf)
-				return []*modTarget{{kind: "field", base: bt, path: "." + x.Sel.Name, typ: gt, ref: ex.valTerm(base.V), src: c.Src}}
+		// walk down to the pointer (or interface, for ghost fields) the path starts from
+		var names []string
+		var cur ast.Expr = x
+		for {
+			se, ok := cur.(*ast.SelectorExpr)
+			if !ok {
+				ctx.fail("modifies %s: no pointer base", c.Src)
 			}
+			names = append([]string{se.Sel.Name}, names...)
+			base := ctx.eval(se.X)
+			bt := ex.env.resolve(base.T)
+			if gf := ex.ghostField(bt, se.Sel.Name); gf != nil && len(names) == 1 {
+				var out []*modTarget
+				ex.withOwnerArgs(bt, func() {
+					gt := ex.substType(ctx.resolveGhostType(gf))
+					gb, field := ex.ghostOwner(gf)
+					out = []*modTarget{{kind: "field", base: gb, path: "." + field, typ: gt, ref: ex.valTerm(base.V), src: c.Src}}
+				})
+				return out
+			}
+			if pt, ok := bt.Underlying().(*types.Pointer); ok {
+				stT := ex.env.resolve(pt.Elem())
+				curT := stT
+				path := ""
+				for _, n := range names {
+					obj, index, _ := types.LookupFieldOrMethod(curT, false, ctx.pkgOf(curT), n)
+					fv, ok := obj.(*types.Var)
+					if !ok || len(index) != 1 {
+						ctx.fail("modifies %s: no direct field %s", c.Src, n)
+					}
+					path += "." + fv.Name()
+					curT = ex.env.resolve(fv.Type())
+				}
+				return []*modTarget{{kind: "field", base: stT, path: path, typ: curT, ref: ex.valTerm(base.V), src: c.Src}}
+			}
+			cur = se.X
 		}
-		pt, ok := bt.Underlying().(*types.Pointer)
-		if !ok {
-			ctx.fail("modifies %s: base is not a pointer", c.Src)
-		}
-		stT := ex.env.resolve(pt.Elem())
-		if gf := ex.ghostField(bt, x.Sel.Name); gf != nil {
-			gt := ctx.resolveGhostType(gf)
-			return []*modTarget{{kind: "field", base: stT, path: "." + x.Sel.Name, typ: gt, ref: ex.valTerm(base.V), src: c.Src}}
-		}
-		obj, index, _ := types.LookupFieldOrMethod(stT, true, ctx.pkgOf(stT), x.Sel.Name)
-		fv, ok := obj.(*types.Var)
-		if !ok || len(index) != 1 {
-			ctx.fail("modifies %s: no direct field", c.Src)
-		}
-		return []*modTarget{{kind: "field", base: stT, path: "." + fv.Name(), typ: fv.Type(), ref: ex.valTerm(base.V), src: c.Src}}
 	case *ast.StarExpr:
 		base := ctx.eval(x.X)
 		pt := ex.env.resolve(base.T).Underlying().(*types.Pointer)
@@ -1267,21 +1281,103 @@ func (ex *Exec) ghostField(t types.Type, name string) *GhostField {
 	return ex.P.Specs.Ghosts[pkg+"."+n.Obj().Name()+"."+name]
 }
 
+// ghostOwner returns the synthetic base type under which a ghost field is
+// stored (independent of type arguments; aliases share the owner of their target).
+var ghostOwners = map[string]*types.Named{}
+
+func (ex *Exec) ghostOwner(gf *GhostField) (types.Type, string) {
+	owner := gf.PkgPath + "." + gf.TypeName
+	field := gf.Field
+	if gf.Alias != "" {
+		i := strings.LastIndex(gf.Alias, ".")
+		owner = gf.Alias[:i]
+		field = gf.Alias[i+1:]
+	}
+	n, ok := ghostOwners[owner]
+	if !ok {
+		tn := types.NewTypeName(0, nil, "ghost:"+shortKey(owner), nil)
+		n = types.NewNamed(tn, types.NewStruct(nil, nil), nil)
+		ghostOwners[owner] = n
+	}
+	return n, field
+}
+
 func (c *SpecCtx) resolveGhostType(gf *GhostField) types.Type {
+	g := gf
+	if gf.Alias != "" {
+		if t := c.ex.P.Specs.Ghosts[gf.Alias]; t != nil {
+			g = t
+		}
+	}
 	var pkg *types.Package
-	if sp := c.ex.P.SPkgs[gf.PkgPath]; sp != nil {
+	if sp := c.ex.P.SPkgs[g.PkgPath]; sp != nil {
 		pkg = sp.Pkg
 	}
 	cc := *c
 	cc.pkg = pkg
-	return cc.resolveType(gf.Type)
+	cc.tparms = map[string]types.Type{}
+	for k, v := range c.tparms {
+		cc.tparms[k] = v
+	}
+	// the owner type's own type parameters
+	if pkg != nil {
+		if obj, ok := pkg.Scope().Lookup(g.TypeName).(*types.TypeName); ok {
+			if n, ok := obj.Type().(*types.Named); ok && n.TypeParams() != nil {
+				for i := 0; i < n.TypeParams().Len(); i++ {
+					tp := n.TypeParams().At(i)
+					cc.tparms[tp.Obj().Name()] = tp
+				}
+			}
+		}
+	}
+	return cc.resolveType(g.Type)
+}
+
+// withOwnerArgs runs f with the type arguments of the (instantiated) owner type substituted.
+func (ex *Exec) withOwnerArgs(t types.Type, f func()) {
+	t = derefType(ex.env.resolve(t))
+	n, ok := types.Unalias(t).(*types.Named)
+	if !ok || n.TypeArgs() == nil || n.TypeArgs().Len() == 0 {
+		f()
+		return
+	}
+	saved := ex.env.subst
+	ns := map[*types.TypeParam]types.Type{}
+	for k, v := range saved {
+		ns[k] = v
+	}
+	tps := n.Origin().TypeParams()
+	for i := 0; i < tps.Len(); i++ {
+		if tps.At(i) != n.TypeArgs().At(i) {
+			ns[tps.At(i)] = n.TypeArgs().At(i)
+		}
+	}
+	ex.env.subst = ns
+	defer func() { ex.env.subst = saved }()
+	f()
 }
 
 func (c *SpecCtx) loadGhostField(x *SV, t types.Type, gf *GhostField) *SV {
-	gt := c.resolveGhostType(gf)
-	base := derefType(c.ex.env.resolve(t))
-	loc := &Loc{Kind: LHeap, Ref: c.ex.valTerm(x.V), Base: c.ex.env.resolve(base), PathS: "." + gf.Field, Type: gt}
-	return &SV{V: c.ex.loadLoc(c.st, loc), T: gt}
+	var res *SV
+	c.ex.withOwnerArgs(t, func() {
+		gt := c.resolveGhostType(gf)
+		base, field := c.ex.ghostOwner(gf)
+		loc := &Loc{Kind: LHeap, Ref: c.ex.valTerm(x.V), Base: base, PathS: "." + field, Type: gt}
+		v := c.ex.loadLoc(c.st, loc)
+		// resolve the ghost type now so that it stays meaningful outside this substitution
+		res = &SV{V: v, T: c.ex.substType(gt)}
+	})
+	return res
+}
+
+// substType applies the current substitution to seq types (the only ghost
+// types that mention type parameters).
+func (ex *Exec) substType(t types.Type) types.Type {
+	if el, ok := isSeqType(t); ok {
+		r := ex.env.resolve(el)
+		return seqType(r, ex.env.typeKey(r))
+	}
+	return ex.env.resolve(t)
 }
 
 // ---- locks, select, recv (sequential defaults) ----
